@@ -12,7 +12,9 @@ import (
 	"net/http/httptest"
 	"net/url"
 	"sort"
+	"strconv"
 	"strings"
+	"sync"
 	"sync/atomic"
 	"time"
 
@@ -162,8 +164,70 @@ func c24Server(tok string, flags string) *c24Srv {
 	return c
 }
 
+// c24Race: k requests carrying the same WRONG token hit a protected endpoint at the same moment,
+// against a bcrypt cost-10 hash (a wide window between the start and the end of the comparison).
+// Every one of them must be refused with 401 before the mux.
+func c24Race(k, rounds int) string {
+	if c24RaceHash == "" {
+		b, err := bcrypt.GenerateFromPassword([]byte(c24Token), 10)
+		must(err)
+		c24RaceHash = string(b)
+	}
+	served := 0
+	for rd := 0; rd < rounds; rd++ {
+		cfg := health.DefaultServerConfig()
+		cfg.TokenHash = c24RaceHash
+		n := new(int64)
+		rec := c24Rec{n}
+		srv := health.NewServer(cfg, rec)
+		srv.SetRemoteProvider(rec)
+		srv.SetSleepProvider(rec)
+		h := srv.Handler()
+		wrong := fmt.Sprintf("wrong-token-%d", rd)
+		start := make(chan struct{})
+		var wg sync.WaitGroup
+		var bad int64
+		for g := 0; g < k; g++ {
+			wg.Add(1)
+			go func(g int) {
+				defer wg.Done()
+				target := "/agents"
+				req := httptest.NewRequest("GET", target, nil)
+				if g%2 == 0 {
+					req.Header.Set("Authorization", "Bearer "+wrong)
+				} else {
+					req = httptest.NewRequest("GET", target+"?token="+wrong, nil)
+				}
+				<-start
+				if g > 0 { // spread the arrivals over the comparison of the first one
+					time.Sleep(time.Duration(g) * 3 * time.Millisecond)
+				}
+				rr := httptest.NewRecorder()
+				h.ServeHTTP(rr, req)
+				if rr.Code != 401 || req.Pattern != "" {
+					atomic.AddInt64(&bad, 1)
+				}
+			}(g)
+		}
+		close(start)
+		wg.Wait()
+		served += int(bad)
+	}
+	if served > 0 {
+		return fmt.Sprintf("race served %d", served)
+	}
+	return "race ok"
+}
+
+var c24RaceHash string
+
 func c24Run(line string) string {
 	f := fields(line)
+	if f[0] == "race" && len(f) == 3 {
+		k, _ := strconv.Atoi(f[1])
+		rounds, _ := strconv.Atoi(f[2])
+		return c24Race(k, rounds)
+	}
 	if f[0] != "req" || len(f) != 8 {
 		return "bad-op"
 	}
@@ -390,5 +454,16 @@ func c24Gen(w *bufio.Writer, seed int64, tier string) {
 }
 
 func init() {
-	register("c24", &Engine{Run: c24Run, Gen: c24Gen})
+	register("c24", &Engine{Run: c24Run, Gen: c24GenAll})
+}
+
+// c24GenAll = the request stream plus the concurrent wrong-token case (sparingly: bcrypt cost 10).
+func c24GenAll(w *bufio.Writer, seed int64, tier string) {
+	c24Gen(w, seed, tier)
+	if tier == "thorough" {
+		fmt.Fprintln(w, "race 12 6")
+		fmt.Fprintln(w, "race 4 4")
+	} else {
+		fmt.Fprintln(w, "race 8 2")
+	}
 }
